@@ -124,8 +124,11 @@ type cliRun struct {
 	Exit   int      `json:"exit"`
 	Signal bool     `json:"killed_by_signal"`
 	Pipe   bool     `json:"killed_by_sigpipe"`
-	Stdout string   `json:"stdout"`
-	Stderr string   `json:"stderr"`
+	// Harness: the run could not be set up or observed (no descriptors left, the child could not be started, it did not
+	// end within two minutes): nothing is concluded from it
+	Harness string `json:"harness_failure,omitempty"`
+	Stdout  string `json:"stdout"`
+	Stderr  string `json:"stderr"`
 }
 
 func runCLI(bin, dir string, inv cliInv) cliRun {
@@ -146,17 +149,26 @@ func runCLI(bin, dir string, inv cliInv) cliRun {
 	case "pipe":
 		cmd.Stdout = &so
 	case "full":
-		f, _ := os.OpenFile("/dev/full", os.O_WRONLY, 0)
+		f, err := os.OpenFile("/dev/full", os.O_WRONLY, 0)
+		if err != nil {
+			return cliRun{Argv: inv.argv(), Harness: "open /dev/full: " + err.Error()}
+		}
 		defer f.Close()
 		cmd.Stdout = f
 	case "broken":
 		// a pipe whose reader has gone before the first write: EPIPE (the Go runtime turns it into SIGPIPE for fd 1)
-		pr, pw, _ := os.Pipe()
+		pr, pw, err := os.Pipe()
+		if err != nil {
+			return cliRun{Argv: inv.argv(), Harness: "pipe: " + err.Error()}
+		}
 		pr.Close()
 		defer pw.Close()
 		cmd.Stdout = pw
 	case "closed":
-		f, _ := os.CreateTemp(dir, "closed")
+		f, err := os.CreateTemp(dir, "closed")
+		if err != nil {
+			return cliRun{Argv: inv.argv(), Harness: "temp file: " + err.Error()}
+		}
 		f.Close()
 		os.Remove(f.Name())
 		cmd.Stdout = f // a closed descriptor: every write fails with EBADF
@@ -166,7 +178,11 @@ func runCLI(bin, dir string, inv cliInv) cliRun {
 	if err := cmd.Start(); err != nil {
 		// exec refuses a closed *os.File: emulate with a pipe whose read end is closed
 		if inv.Stdout == "closed" {
-			pr, pw, _ := os.Pipe()
+			pr, pw, perr := os.Pipe()
+			if perr != nil {
+				out.Harness = "pipe: " + perr.Error()
+				return out
+			}
 			pr.Close()
 			cmd = exec.Command(bin, inv.argv()...)
 			cmd.Dir, cmd.Env, cmd.Stderr, cmd.Stdout = dir, append(os.Environ(), "NO_COLOR=1"), &se, pw
@@ -174,24 +190,21 @@ func runCLI(bin, dir string, inv cliInv) cliRun {
 				cmd.Stdin = strings.NewReader(doc)
 			}
 			if err2 := cmd.Start(); err2 != nil {
-				out.Exit = -1
-				out.Stderr = err2.Error()
+				out.Harness = "start: " + err2.Error()
 				return out
 			}
 			pw.Close()
 		} else {
-			out.Exit = -1
-			out.Stderr = err.Error()
+			out.Harness = "start: " + err.Error()
 			return out
 		}
 	}
 	go func() { done <- cmd.Wait() }()
 	select {
 	case <-done:
-	case <-time.After(30 * time.Second):
+	case <-time.After(2 * time.Minute):
 		cmd.Process.Kill()
-		out.Exit = -2
-		out.Stderr = "timeout"
+		out.Harness = "the process had not ended after two minutes"
 		return out
 	}
 	out.Stdout, out.Stderr = so.String(), se.String()
@@ -436,6 +449,15 @@ func checkCLIState(r *evid.Run, bin string, pool *wproto.Pool, s *cliState) {
 		r.Count("real_calls", 1)
 	}
 	inv := s.Hist[len(s.Hist)-1]
+	if run.Harness != "" {
+		// nothing observed, nothing concluded (a handful of these is a loaded machine; many are a broken harness)
+		r.Count("cli_runs_without_verdict", 1)
+		r.Note("gtree " + strings.Join(inv.argv(), " ") + ": " + run.Harness)
+		if r.Get("cli_runs_without_verdict") > 20 {
+			r.Broken("more than 20 runs of the binary could not be set up or observed: %s", run.Harness)
+		}
+		return
+	}
 	after := listDir(dir)
 	if s.Called {
 		r.Count("distinct_nontrivial", 1)
